@@ -7,7 +7,7 @@ from .guards import DecoderGuard, NonTerminatingDecode
 
 LOCAL = ("client.network", "network")
 PEER = ("server.peer.example", "peer.example")      # a realm of its own: the node's and the peer's identity must never be interchangeable
-PEER_ADDR = ("127.0.0.2", 3868)
+PEER_ADDR = ("127.0.0.2", 3870)      # another port than the local one, for the same reason
 LOCAL_ADDR = ("127.0.0.1", 3868)
 
 _saved = {}
